@@ -269,12 +269,16 @@ def routes(mc, acc, k, slice_noparser):
         lab = [[gm.get(a, a) for a in l] + (['p'] if i == 0 else []) for i, l in enumerate(k.lab)]
         k2 = spaces.K(k.n, k.succ, lab)
         mc2 = MC(k2, lib.to_kripke(k2), acc)
-        for f0 in ctl_forms[4:60:3] + [('not', P), ('E', ('F', P)), ('A', ('G', Q)), ('and', P, Q)]:
+        for f0 in [P, Q, ('or', EX(P), EX(Q)), ('and', EX(P), N(EX(Q))), ('or', ('A', ('F', P)), ('A', ('F', Q))),
+                   ('E', ('U', EX(P), EX(Q)))] + ctl_forms[4:60:3] + [('not', P), ('E', ('F', P)), ('A', ('G', Q)),
+                                                                        ('and', P, Q)]:
             f = sub(f0, gm)
             plain = f0
-            # first the look-alike text over the ordinary atoms, then the glued one
-            mc2('CTL', plain, 'text')
-            mc2('CTLS', plain, 'text')
+            # first the look-alike texts over the ordinary atoms ('not p' before the atom 'notp'), then
+            # the glued one
+            for pre in (plain, N(P), ('E', ('F', P)), ('A', ('G', Q))):
+                mc2('CTL', pre, 'text')
+                mc2('CTLS', pre, 'text')
             rs = [('CTL<-CTL obj', mc2('CTL', f)), ('CTL<-text', mc2('CTL', f, 'text')),
                   ('CTLS<-CTLS obj', mc2('CTLS', f)), ('CTLS<-text', mc2('CTLS', f, 'text'))]
             base = None
